@@ -360,3 +360,68 @@ Proof.
     + destruct (v_threads v) as [| |ts]; cbn [sres_opt] in H2; try (exfalso; apply H2; reflexivity). exists ts. reflexivity.
   - intros [[s Hs] [ts Ht]]. rewrite Hs, Ht. cbn [sres_opt]. split; discriminate.
 Qed.
+
+(* ---------------------------------------------------------------- crash address / reason inputs from the bytes *)
+Lemma wt_arr_nth : forall w n l, wt (LArr n (LU w)) (varr l) = true -> forall i d, (i < length l)%nat -> 0 <= nth i l d < wbits w.
+Proof.
+  intros w n. induction n as [|n IH]; intros l H i d Hi.
+  - destruct l as [|x l]; [cbn in Hi; lia|]. cbn in H. discriminate.
+  - destruct l as [|x l]; [cbn in Hi; lia|].
+    change (varr (x :: l)) with (VSeq (VInt x) (varr l)) in H.
+    change (wt (LArr (S n) (LU w)) (VSeq (VInt x) (varr l))) with (wt (LU w) (VInt x) && wt (LArr n (LU w)) (varr l)) in H.
+    apply andb_true_iff in H. destruct H as [Hx Hl]. destruct i as [|i].
+    + cbn [nth]. cbn [wt] in Hx. apply andb_true_iff in Hx. destruct Hx as [A B]. apply Z.leb_le in A. apply Z.ltb_lt in B. lia.
+    + cbn [nth]. apply (IH l Hl i d). cbn [length] in Hi. lia.
+Qed.
+Lemma wt_arr_length : forall w n l, wt (LArr n (LU w)) (varr l) = true -> length l = n.
+Proof.
+  intros w n. induction n as [|n IH]; intros l H.
+  - destruct l as [|x l]; [reflexivity|cbn in H; discriminate].
+  - destruct l as [|x l]; [cbn in H; discriminate|].
+    change (varr (x :: l)) with (VSeq (VInt x) (varr l)) in H.
+    change (wt (LArr (S n) (LU w)) (VSeq (VInt x) (varr l))) with (wt (LU w) (VInt x) && wt (LArr n (LU w)) (varr l)) in H.
+    apply andb_true_iff in H. destruct H as [_ Hl]. cbn [length]. f_equal. exact (IH l Hl).
+Qed.
+
+Section Crash.
+Variable rc : endian -> Z -> list Z -> option ctx.
+(* the exception record of a well-formed model: information[1] and the address are 64-bit values *)
+Lemma wf_exception_ranges x : wf_exception x = true ->
+  0 <= nth 1 (ex_info x) 0 < two64 /\ 0 <= ex_address x < two64 /\ length (ex_info x) = 15%nat.
+Proof.
+  unfold wf_exception. intro H. repeat (apply andb_true_iff in H; destruct H as [H ?]).
+  match goal with Hw : wt (LArr 15 (LU 8)) (varr (ex_info x)) = true |- _ =>
+    pose proof (wt_arr_length 8 15 _ Hw) as Hlen; pose proof (wt_arr_nth 8 15 _ Hw 1%nat 0 ltac:(rewrite Hlen; lia)) as Hn end.
+  split; [exact Hn|]. split; [|exact Hlen].
+  match goal with Ha : u64b (ex_address x) = true |- _ => unfold u64b in Ha; apply andb_true_iff in Ha; destruct Ha as [A B];
+    apply Z.leb_le in A; apply Z.ltb_lt in B; split; [exact A|exact B] end.
+Qed.
+
+Lemma wf_model_exception e m x : wf_model e m = true -> m_exception m = Some x -> wf_exception x = true.
+Proof.
+  unfold wf_model. intros H Hx. repeat (apply andb_true_iff in H; destruct H as [H ?]).
+  match goal with Hw : oall wf_exception (m_exception m) = true |- _ => rewrite Hx in Hw; exact Hw end.
+Qed.
+
+Lemma model_crash e m d s x : wf_model e m = true -> dump_of_model rc e m = Some d ->
+  m_sysinfo m = Some s -> m_exception m = Some x ->
+  let o := os_of_platform (si_platform s) in let c := cpu_of_arch (si_arch s) in
+  let ex := exception_of rc e (si_arch s) x in
+  d_platform d = si_platform s /\ d_arch d = si_arch s /\ d_exc d = Some ex /\
+  crash_address o c ex =
+    (let a := if os_eqb_windows o && ((ex_code x =? 3221225477) || (ex_code x =? 3221225478)) && (2 <=? ex_nparams x)
+              then nth 1 (ex_info x) 0 else ex_address x in
+     match pointer_width c with W32 => a mod two32 | _ => a end) /\
+  0 <= crash_address o c ex < two64.
+Proof.
+  intros Hwf Hd Hs Hx o c ex.
+  destruct (model_some rc e m d Hd) as (s' & ts & Hs' & _ & H). rewrite Hs in Hs'. inversion Hs'. subst s'.
+  cbn [dump_of_streams] in H. inversion H as [Hd']. clear H. cbn [d_platform d_arch d_exc]. rewrite Hx. cbn [option_map].
+  split; [reflexivity|]. split; [reflexivity|]. split; [reflexivity|].
+  destruct (wf_exception_ranges x (wf_model_exception e m x Hwf Hx)) as (Hi & Ha & _).
+  split.
+  - unfold crash_address, crash_address_raw, wrap32. reflexivity.
+  - apply crash_address_spec. unfold crash_address_raw. fold o. unfold ex. cbn [e_code e_nparams e_info1 e_addr exception_of].
+    destruct (os_eqb_windows o && _ && _); assumption.
+Qed.
+End Crash.
